@@ -46,7 +46,10 @@ JudgeC14(rec) ==
           <<(class = "wellformed" /\ f.ok) => (f.control_ext = c.extname /\ f.data_ext = d.extname), "control/data extension wrong">>,
           <<(class = "wellformed" /\ f.ok) => (Range(f.ar_names) = {ms[i].name : i \in 1..Len(ms)} /\ Len(f.ar_names) = Len(ms)),
             "index of ar members differs from the archive">>,
-          <<(class = "wellformed" /\ f.ok) => TarAgrees(f, d.files), "data tar stream differs from the packaged files">> >>)
+          <<(class = "wellformed" /\ f.ok) => TarAgrees(f, d.files), "data tar stream differs from the packaged files">>,
+          <<(class = "wellformed" /\ f.ok) => (~rec.overlap.panic /\ rec.overlap.ok /\ TarAgrees([tar |-> rec.overlap.tar1], d.files)
+                                               /\ TarAgrees([tar |-> rec.overlap.tar2], d.files)),
+            "two loads of the same bytes that are open at the same time do not both deliver the packaged files">> >>)
 
 \* ---- C16 ------------------------------------------------------------------
 JudgeC16(rec) ==
